@@ -170,7 +170,12 @@ fn mutate(ctx: &mut Ctx, m: &[u8], other: &[u8]) -> (Vec<u8>, String) {
             let ascii = ctx.pick(140);
             let wide: &str = *ctx.tape.choose(&["", "é", "日", "😀", " ", "&amp;", "&#x1F600;", "\t"]);
             let repeat = ctx.pick(60);
-            let value = format!("{}{}", "v".repeat(ascii), wide.repeat(repeat));
+            // one time in four a number instead (counts, ids and lengths are read from such leaves)
+            let value = if ctx.pick(4) == 0 {
+                (*ctx.tape.choose(&["0", "1", "2", "7", "255", "65536", "4294967295", "4294967296", "18446744073709551615", "18446744073709551616", "-1", "-0", "+3", "99999999999999999999999999", "1e3", "0x10"])).to_string()
+            } else {
+                format!("{}{}", "v".repeat(ascii), wide.repeat(repeat))
+            };
             let old = text[a..e].to_string();
             (format!("{}{}{}", &text[..a], value, &text[e..]).into_bytes(), format!("value replaced ({} ascii + {} x {:?}) in place of {:?}", ascii, repeat, wide, old.chars().take(24).collect::<String>()))
         }
@@ -262,7 +267,9 @@ fn valid_reply_for(ctx: &mut Ctx, op: usize, id: &str, x: usize) -> Vec<u8> {
         (1, _) => reply(id, "<ok/>"),
         (2, 1) | (3, 1) => reply(id, ""),
         (2, _) | (3, _) => reply(id, warning),
-        (4, 1) => reply(id, "<load-configuration-results><ok/></load-configuration-results>"),
+        (4, 1) if ctx.pick(2) == 0 => reply(id, "<load-configuration-results><ok/></load-configuration-results>"),
+        // a refused load: error-severity rpc-error and a consistent error count, no <ok/>
+        (4, 1) => reply(id, &format!("<load-configuration-results>{}<load-error-count>1</load-error-count></load-configuration-results>", warning.replace("warning", "error"))),
         (4, _) => reply(id, &format!("<load-configuration-results>{warning}<load-error-count>1</load-error-count><ok/></load-configuration-results>")),
         (_, 1) => reply(id, "<ok/>"),
         _ => reply(id, &format!("{warning}<ok/>")),
@@ -516,7 +523,7 @@ pub static C14: PropSpec = PropSpec {
     runs: |t| if t == Tier::Thorough { 12_000_000 } else { 120_000 },
     enumerated: |_| 0,
     run,
-    rule: "one run in 150: over the real TLS / SSH / local transport the hello or a reply is cut short at a seeded offset and the peer then closes (every close kind of C07) with 1-3 requests outstanding; every pending and one further call must fail within 5 virtual seconds, a spinning receive loop is caught by the watchdog. Otherwise: a session with 1-4 outstanding get requests (each awaited in its own task, replies in order or permuted); the server hello or the reply to one request is replaced by a mutation of the valid message: truncation at any offset, splice with another message, 1-3 byte flips, duplicated region, huge / negative message-id, invalid UTF-8, wrong namespace, 64 KiB (thorough: 4 MiB) of text, random bytes, empty message, deep nesting, huge numbers, two roots, duplicate attributes, DOCTYPE + comments, the text of one leaf or the value of one attribute replaced by a generated value (0-140 ASCII bytes followed by 0-59 repetitions of a 2-, 3- or 4-byte character, blank, entity or character reference). The request whose reply is mutated is one of get, lock, open-, close-, load- and commit-configuration, and its valid base reply one of that operation's shapes (data, <ok/>, empty, warning, load-configuration-results with a warning and an error count) or a complete <rpc-error> reply, so that every reply reader is reached. The same mutations are applied to running / ephemeral configuration documents fed to the agent's readers. Non-trivial = a mutation was delivered; distinct = distinct event-log hash",
+    rule: "one run in 150: over the real TLS / SSH / local transport the hello or a reply is cut short at a seeded offset and the peer then closes (every close kind of C07) with 1-3 requests outstanding; every pending and one further call must fail within 5 virtual seconds, a spinning receive loop is caught by the watchdog. Otherwise: a session with 1-4 outstanding get requests (each awaited in its own task, replies in order or permuted); the server hello or the reply to one request is replaced by a mutation of the valid message: truncation at any offset, splice with another message, 1-3 byte flips, duplicated region, huge / negative message-id, invalid UTF-8, wrong namespace, 64 KiB (thorough: 4 MiB) of text, random bytes, empty message, deep nesting, huge numbers, two roots, duplicate attributes, DOCTYPE + comments, the text of one leaf or the value of one attribute replaced by a generated value (0-140 ASCII bytes followed by 0-59 repetitions of a 2-, 3- or 4-byte character, blank, entity or character reference; or a number from 0 to beyond 2^64, negative, signed, in other notations). The request whose reply is mutated is one of get, lock, open-, close-, load- and commit-configuration, and its valid base reply one of that operation's shapes (data, <ok/>, empty, warning, load-configuration-results with a warning and an error count) or a complete <rpc-error> reply, so that every reply reader is reached. The same mutations are applied to running / ephemeral configuration documents fed to the agent's readers. Non-trivial = a mutation was delivered; distinct = distinct event-log hash",
     components: &[
         ("netconf session + message readers", "real"),
         ("junos-agent policies/fetch.rs readers via the verif facade", "real"),
